@@ -23,7 +23,10 @@ IMPORTS = ('From Coq Require Import List ZArith QArith String.\n'
 
 
 def _scd(seq):
-    return call(lambda: fnum(SP(seq).get_SCD()), seconds=60)
+    def f():
+        o, held = SPx(seq)
+        return held, fnum(o.get_SCD())
+    return call(f, seconds=60)
 
 
 def build(ctx):
@@ -39,15 +42,26 @@ def build(ctx):
         seqs += [rng.choice('KRDE') * n, (rng.choice('KR') + rng.choice('DE')) * (n // 2), 'KKEE' * (n // 4),
                  (rng.choice('KRDE') + 'G') * (n // 2), 'E' * (n // 2) + 'K' * (n // 2),
                  'GS' * 10 + rng.choice('DE') * n + 'GS' * 10]
+    for n in range(2, ctx.pick(221, 401)):
+        k = rng.randint(1, 3)
+        pos = set(rng.sample(range(n), min(k, n)))
+        seqs.append(''.join(rng.choice('KRDE') if i in pos else rng.choice('GSAQ') for i in range(n)))
+        if n % 2:
+            seqs.append(rng.choice('KE') + 'G' * (n - 2) + rng.choice('KE'))
     res = pmap(_scd, seqs)
     cases = []
     ctx.direct_failures = []
-    for s, (st, v) in zip(seqs, res):
+    for s0, (st, v) in zip(seqs, res):
+        s = s0
+        if st == 'ok':
+            s, v = v          # the sequence the object actually holds (a shuffled child holds another one than asked for)
         d = {'sequence': s, 'get_SCD': [st, v]}
+        if s != s0:
+            d['object'] = 'get_shuffled_sequence() child of ' + s0
         if st != 'ok' or not isinstance(v, (int, float)) or math.isnan(v):
             ctx.direct_failures.append(d)
             continue
-        cases.append(Case('(%s, %s)' % (cstr(s), cq(v)), d, key=s, nontrivial=sum(c in 'KRDE' for c in s) >= 2))
+        cases.append(Case('(%s, %s)' % (cstr(s), cq(v)), d, key=(s, s != s0), nontrivial=sum(c in 'KRDE' for c in s) >= 2))
     return [CaseSet('C07', IMPORTS, 'string * Q', 'check_c07', cases, shard=300)]
 
 
